@@ -241,6 +241,12 @@ def task_call_site(pr, repo):
     pr.explore(ex, thunk, 'Atom.set_properties serial field')
 
 
+def task_topup_reference(pr, repo):
+    # which conformation's atom completes the others is decided by the conformation order, not by serial numbers (C08-TC)
+    from . import C08
+    C08.task_topup_conformations(pr, repo)
+
+
 def run(pr, repo):
     fi = repo.func(FN)
     pr.under_contract(fi)
@@ -262,6 +268,7 @@ def run(pr, repo):
                     continue
                 tasks.append((task_RT, (w, seg, lo, hi, base, off, pad)))
     tasks.append((task_call_site, ()))
+    tasks.append((task_topup_reference, ()))
     pr.parallel(tasks)
 
     # ---- MO: strict monotonicity along the encoding order (on value(), which F ties to decode)
